@@ -40,6 +40,8 @@ def small_model(rng):
         m = models.split_hemispheres(1.0, [1.2] * rng.randint(0, 1), (0.0, 0.0) if rng.random() < 0.7 else (0.0, 1.0), [0.33], rng.choice([1, 1, 2]))
         m["info"]["topology"] = "split-zero"
         return m
+    if r < 0.34 and r >= 0.3:
+        return gd.separate_conductors(rng, rng.randint(2, 3), rng.choice([0, 1]))
     if r < 0.3:
         # interface whose bounding-box centre is outside the enclosed volume (rejected as "not closed" before the fix)
         m = gd.bowl_model(rng.choice([1, 1, 2]), rng.choice([1.0, 0.33]), inside_sphere=rng.random() < 0.5)
@@ -113,7 +115,14 @@ def make_case(ck, cid, m, style, old, nprobes, rng, has_cond=True, cond_extra=No
     if style == "1.0":
         mm["domains"] = [(n.replace(":", "_"), bs) for n, bs in mm["domains"]]
     if not has_cond: mm = dict(mm); mm["cond"] = None
-    if probes is None: probes = gd.probe_points(m, rng, nprobes) if nprobes else []
+    if probes is None:
+        probes = gd.probe_points(m, rng, nprobes) if nprobes else []
+        if nprobes:
+            # a few points well inside every separate object (they are rare among uniform points of the bounding box)
+            for c_, r_ in m.get("info", {}).get("objects", []):
+                for _ in range(3):
+                    d_ = models.random_unit(rng); t_ = 0.5 * r_ * rng.random()
+                    probes.append(tuple(c_[q] + t_ * d_[q] for q in range(3)))
     aux = gd.abstract(mm, probes, old)
     head, tail, ids = gd.file_wire(m, T)
     cw, fl = gd.cond_wire(mm, lines, has_cond, cond_header, ids)
@@ -223,6 +232,7 @@ def expected_nested(m):
     if k == "nested": return True, "nested shells"
     if k == "inclusions": return (len(info.get("blobs", [])) <= 1), "%d sibling inclusion(s)" % len(info.get("blobs", []))
     if k == "split": return False, "split hemispheres"
+    if k == "separate": return None, "separate conductors"
     if k == "bowl": return True, "a bowl-shaped shell (and its enclosing sphere)"
     return None, "?"
 
@@ -399,6 +409,14 @@ def main(replay=None):
         for od in itertools.permutations(range(5)) if not quick else rng.sample(list(itertools.permutations(range(5))), 16):
             v = gd.redescribe(wm, rng, "identity"); v["meshes"] = [wm["meshes"][k] for k in od]
             add(v, "1.1", False, "orders:split-lens", nprobes=0)
+        # separate conductors in one air: the outermost domain has several boundaries; every order of its boundary list
+        for kk in (2, 3):
+            wm = gd.separate_conductors(rng, kk, 0)
+            ai = [q for q, (n_, _) in enumerate(wm["domains"]) if n_ == "Air"][0]
+            for od in itertools.permutations(range(kk)):
+                v = gd.redescribe(wm, rng, "identity"); bs = wm["domains"][ai][1]
+                v["domains"][ai] = ("Air", [bs[q] for q in od])
+                add(v, "1.1", False, "orders:separate", nprobes=10)
         cp = os.path.join(core.VERIF, "corpus", "C11.txt")
         if os.path.exists(cp):
             for line in open(cp):
